@@ -98,6 +98,11 @@ def main():
     if chk.quick:
         alltexts = CHAINS + GATED + seeds.sample(chk.rng, py, 60) + seeds.sample(chk.rng, xs, 40) + seeds.sample(chk.rng, lits, 60)
 
+    # rejected inputs too: the options must not move an error either (error-layout seeds, every single-token deletion of the gated and Python seeds)
+    from checks.c11 import LAYOUT_ERR_SEEDS
+    dels = pycommon.token_deletions(GATED + [s for s in py if len(s) < 120])
+    alltexts = list(dict.fromkeys(alltexts + LAYOUT_ERR_SEEDS + (seeds.sample(chk.rng, dels, 250) if chk.quick else dels)))
+
     def tf(ex):
         i = harness.choose_index(ex, "seed", len(alltexts))
         md = "exec" if harness.choose_index(ex, "mode", 2) == 0 else "eval"
@@ -109,7 +114,7 @@ def main():
         if v is not None:
             rec["viol"].append({"oracle": "c15", "args": [w, md], "kwargs": {}, "v": v})
     chk.run("seeds k=0 x full option grid", harness.A_harness(tf, validate=False, extra=grid), f"{len(alltexts)} seeds x 2 modes x verbose x py_version 3.8..3.13",
-            wall=150 if chk.quick else 1200, vacuity=("ok",))
+            wall=200 if chk.quick else 1800, vacuity=("ok", "SyntaxError"))
     chk.finish()
 
 
